@@ -66,6 +66,9 @@ def run(p: Program, rep: Report, tier: str) -> None:
                 continue
             de, le, dg = _touch(pa)
             if not (de or le or dg):
+                if name in ("__setitem__", "append"):
+                    rep.violation("R17.1", construct(m, text="path returns without updating"), where(m),
+                                  f"{name} has a normal path that updates neither representation: an assignment must leave exactly one pair for the key (duplicates collapsed) and the new value indexed", path_facts=pa.fact_text())
                 continue
             mutates = True
             if dg and not de and not le:
